@@ -214,3 +214,40 @@ def upvar_operands(facts, cl, sl, idx=None):
                 if st['s'] == 'assign' and st['rv']['r'] == 'aggr' and st['rv'].get('ak') == 'closure' and st['rv'].get('closure_id') == cl.qname:
                     return f2, [st['rv']['ops'][i] for i in sorted(used) if i < len(st['rv']['ops'])]
     return None, []
+
+
+def _strip(n):
+    import pathrules
+    return pathrules.strip(n)
+
+
+def field_sources(fn, local, idx, depth=0):
+    """set of (root parameter, field path) a local is a (reference to a) projection of, through as_ref/as_deref/copies"""
+    out = set()
+    seen = set()
+    stack = [local]
+    while stack:
+        l = stack.pop()
+        if l in seen:
+            continue
+        seen.add(l)
+        if 1 <= l <= fn.mir['argc']:
+            out.add((l, ()))
+        for kind, bi, d in idx.get(l, []):
+            if kind == 'assign':
+                rv = d['rv']
+                pl = rv.get('place') if rv['r'] in ('ref', 'rawptr') else rv.get('op') if rv['r'] in ('use', 'cast') else None
+                if pl and 'l' in pl:
+                    fp = tuple(x for x in field_path(pl) if not x.startswith('<'))
+                    if fp:
+                        for root, pre in (field_sources(fn, pl['l'], idx, depth + 1) if depth < 4 else {(pl['l'], ())}):
+                            out.add((root, pre + fp))
+                    else:
+                        stack.append(pl['l'])
+            elif kind == 'call':
+                cal = callee_of(d)
+                if cal and cal['def'].split('<')[0] if False else _strip(cal['def']).split('::')[-1] in ('as_ref', 'as_deref', 'deref', 'clone', 'borrow'):
+                    stack.extend(a['l'] for a in d['args'][:1] if 'l' in a)
+    return {(r, fp) for r, fp in out if fp or 1 <= r <= fn.mir['argc']}
+
+
